@@ -145,6 +145,10 @@ theorem wake_obligation_generic (t : NotifyTable) (ht : t.adequate = true) (k : 
     exfalso
     simp only [applyOp] at h1
     cases k <;> (simp only [pred, inFlight] at h0 h1; rw [h0] at h1; cases h1)
+  | nop =>
+    exfalso
+    simp only [applyOp] at h1
+    rw [h0] at h1; cases h1
 
 /-! ### the loop body in the standard order -/
 
